@@ -221,8 +221,6 @@ Definition same_posting (p p' : s_posting) : Prop :=
 Definition wf_code (c : str) : bool := forallb (fun x => negb (x =? 41)) c.
 Definition wf_payee (cs : Syntax.clear_state) (code : option str) (p : str) : bool :=
   forallb (fun c => negb (is_payee_stop c)) p && end_trimmed p && negb (starts is_sp p) &&
-  (* without a code in front, a payee that starts with ( is read as a code *)
-  (match code with None => negb (starts (N.eqb 40) p) | Some _ => true end) &&
   (* with neither mark nor code in front, a payee that starts with * or ! is read as a mark *)
   (match cs, code with Uncleared, None => negb (starts is_clear_mark p) | _, _ => true end).
 
@@ -231,9 +229,9 @@ Definition wf_txn (t : s_txn) : bool :=
   wf_payee (st_clear t) (st_code t) (st_payee t) &&
   forallb wf_metadata (st_metadata t) && forallb wf_posting (st_posts t).
 
-(* The one place where the parser's image is not described by a local condition: with no code,
-   a payee may start with ( when no ) follows anywhere in the rest of the text (the code parser
-   runs to the end of the input and gives up).  Such a transaction is outside wf_txn. *)
+(* The one condition that is not local to an entry: with no code, a payee that starts with ( is
+   read as the payee only when no ) follows anywhere in the rest of the text (the code parser
+   runs to the end of the input and gives up).  See wf_ledger below. *)
 Definition open_paren_payee (t : s_txn) : bool :=
   match st_code t with None => starts (N.eqb 40) (st_payee t) | Some _ => false end.
 
@@ -306,6 +304,58 @@ Definition wf_entry (e : s_entry) : bool :=
 
 Definition entry_open_paren (e : s_entry) : bool :=
   match e with STxn t => open_paren_payee t | _ => false end.
+
+(* ---- trees whose printed form contains no `)` : no parenthesised expression, no code, no lot
+   note, no `)` in any text field ---- *)
+Definition no41 (s : str) : bool := forallb (fun c => negb (c =? 41)) s.
+Definition np_vexpr (v : s_vexpr) : bool :=
+  match v with SAmount a => no41 (sa_commodity a) | SParen _ => false end.
+Definition np_exchange (x : s_exchange) : bool :=
+  match x with STotal v => np_vexpr v | SRate v => np_vexpr v end.
+Definition np_lot (l : s_lot) : bool :=
+  opt_all np_exchange (lot_price l) && is_none (lot_note l).
+Definition np_posting_amount (pa : s_posting_amount) : bool :=
+  np_vexpr (pa_amount pa) && opt_all np_exchange (pa_cost pa) && np_lot (pa_lot pa).
+Definition np_meta_value (v : s_meta_value) : bool :=
+  match v with MText s => no41 s | MExpr s => no41 s end.
+Definition np_metadata (m : s_metadata) : bool :=
+  match m with
+  | MComment s => no41 s
+  | MWordTags tags => forallb no41 tags
+  | MKeyValue k v => no41 k && np_meta_value v
+  end.
+Definition np_posting (p : s_posting) : bool :=
+  no41 (sp_account p) && opt_all np_posting_amount (sp_amount p) && opt_all np_vexpr (sp_balance p) &&
+  forallb np_metadata (sp_metadata p).
+Definition np_txn (t : s_txn) : bool :=
+  is_none (st_code t) && no41 (st_payee t) &&
+  forallb np_metadata (st_metadata t) && forallb np_posting (st_posts t).
+Definition np_account_detail (d : s_account_detail) : bool :=
+  match d with ADComment s => no41 s | ADNote s => no41 s | ADAlias s => no41 s end.
+Definition np_commodity_detail (d : s_commodity_detail) : bool :=
+  match d with
+  | CDComment s => no41 s | CDNote s => no41 s | CDAlias s => no41 s
+  | CDFormat a => no41 (sa_commodity a)
+  end.
+Definition np_entry (e : s_entry) : bool :=
+  match e with
+  | STxn t => np_txn t
+  | SComment s => no41 s
+  | SApplyTag key value => no41 key && opt_all np_meta_value value
+  | SEndApplyTag => true
+  | SInclude path => no41 path
+  | SAccount name ds => no41 name && forallb np_account_detail ds
+  | SCommodity name ds => no41 name && forallb np_commodity_detail ds
+  end.
+
+(* a list of entries as `format` may be given it: every entry well formed, and after a payee
+   that starts with ( without a code, nothing that would be printed with a ) *)
+Fixpoint wf_ledger (es : list s_entry) : bool :=
+  match es with
+  | [] => true
+  | e :: r =>
+      wf_entry e && (negb (entry_open_paren e) || (np_entry e && forallb np_entry r)) && wf_ledger r
+  end.
 
 Definition same_entry (e e' : s_entry) : Prop :=
   match e, e' with
